@@ -1802,11 +1802,12 @@ class Exists(QuantifiedConditional):
     ) -> Iterable[OperationResult]:
         sources = sources or {}
         self._eval_parent_ = parent
-        seen_var_values = []
+        # values are told apart by identity: two distinct values that compare equal are two values of the variable
+        seen_var_value_ids = set()
         for val in self.condition._evaluate__(sources, parent=self):
             var_val = val[self.variable._id_]
-            if val.is_true and var_val.value not in seen_var_values:
-                seen_var_values.append(var_val.value)
+            if val.is_true and var_val.id_ not in seen_var_value_ids:
+                seen_var_value_ids.add(var_val.id_)
                 yield OperationResult(val.bindings, False, self)
 
     def _invert_(self):
